@@ -37,7 +37,7 @@ Proof.
   - exists (VStr []); exact Logic.I.
   - apply Z.ltb_lt in H. exists (VBV w 0). cbn. split; auto. split; [lia|]. apply Z.pow_pos_nonneg; lia.
   - apply andb_true_iff in H. destruct H as [_ H]. destruct (IHt2 H) as [v Hv].
-    exists (VArr (fun _ => v)). cbn. auto.
+    exists (VArr (fun k => if key_sortb k t1 then v else junk)). cbn. intros k. destruct (key_sortb k t1); auto.
   - discriminate.
   - exists (VU name 0). reflexivity.
 Qed.
@@ -59,18 +59,13 @@ Proof. intros [H _] Ht. auto. Qed.
 
 (* ================================================================== the fragment *)
 (* array values.  The canonical form the constructor Array() and the model guarantee: the
-   index sort is not an array sort, not Real (a Real index would need Real constants in
-   lowest terms, which [okt] does not ask) and not Bool / BV: core/Sem.v compares array values
-   at EVERY key, also at keys outside the index sort, where an array value shows its default;
-   walk_equals (rightly) makes two array values over a finite index sort equal when the
-   assigned indices cover the sort, whatever the defaults - true in SMT-LIB, false in Sem.v as
-   it stands.  The indices are constants of Int / String
+   index sort is not an array sort and not Real (a Real index would need Real constants in
+   lowest terms, which [okt] does not ask), the indices are constants of Bool / Int / BV / String
    sort, strictly increasing in the model's order of index constants (Ctors.const_key; the
    implementation keeps a dict, the model and the harness keep this order), and no assigned
    value is syntactically the default (Array() drops such pairs); the element sort is not Real
-   (same reason as for the index: the rule that decides the equality of two constant arrays
-   compares Real constants syntactically).  [arr_keys_ok] is the part that survives the
-   simplification of the children. *)
+   (kept from the time when the equality of two constant arrays was decided syntactically).
+   [arr_keys_ok] is the part that survives the simplification of the children. *)
 Definition key_const (t : term) : bool :=
   match t with
   | T (OBoolC _) [] | T (OIntC _) [] | T (OBVC _ _) [] | T (OStrC _) [] => true
@@ -82,7 +77,7 @@ Fixpoint keys_sorted (l : list (term * term)) : bool :=
   | [] => true
   | kv :: r => forallb (fun kv' => klt (fst kv) (fst kv')) r && keys_sorted r
   end.
-Definition idx_ok (it : ty) : bool := match it with TArr _ _ | TReal | TBool | TBV _ => false | _ => inhb it end.
+Definition idx_ok (it : ty) : bool := match it with TArr _ _ | TReal => false | _ => inhb it end.
 Definition elt_ok (t : option ty) : bool := match t with Some TReal | None => false | Some _ => true end.
 Definition arr_keys_ok (it : ty) (d : term) (rest : list term) : bool :=
   idx_ok it && elt_ok (tc d) && Nat.even (List.length rest) &&
@@ -577,22 +572,34 @@ Lemma list_ind2 {A} (P : list A -> Prop) :
 Proof.
   intros H0 H1 H2. fix IH 1. intros [|x [|y r]]; [apply H0 | apply H1 | apply H2; apply IH].
 Qed.
-Fixpoint odd_all {A} (P : A -> Prop) (l : list A) : Prop :=
-  match l with _ :: v :: r => P v /\ odd_all P r | _ => True end.
-Lemma arr_assign_has_ty e : forall l f, (forall k, has_ty (f k) e) ->
-  odd_all (fun v => has_ty v e) l -> forall k, has_ty (arr_assign f l k) e.
+(* the key of a value of a sort is a key of that sort *)
+Lemma has_ty_key_sortb v t : has_ty v t -> key_sortb (to_key v) t = true.
 Proof.
-  induction l as [| x | x y r IH] using list_ind2; intros f Hf Hv k; cbn; auto.
-  destruct Hv as [Hy Hr]. destruct (key_eq_dec k (to_key x)); auto.
+  destruct t, v; cbn; try contradiction; auto.
+  - intros [-> [H0 H1]]. rewrite Z.eqb_refl, (proj2 (Z.leb_le 0 v)), (proj2 (Z.ltb_lt v (2 ^ w))); auto.
+  - intros ->. apply String.eqb_refl.
 Qed.
-Lemma odd_all_map {A B} (f : A -> B) (P : B -> Prop) : forall l, odd_all (fun a => P (f a)) l -> odd_all P (map f l).
+(* an array value of sort (Array it e): values of sort e on the keys of sort it, junk elsewhere *)
+Definition arr_ok (it e : ty) (f : key -> value) : Prop :=
+  forall k, if key_sortb k it then has_ty (f k) e else f k = junk.
+Fixpoint pairs_all {A} (P : A -> A -> Prop) (l : list A) : Prop :=
+  match l with i :: v :: r => P i v /\ pairs_all P r | _ => True end.
+Lemma arr_assign_has_ty it e : forall l f, arr_ok it e f ->
+  pairs_all (fun i v => key_sortb (to_key i) it = true /\ has_ty v e) l -> arr_ok it e (arr_assign f l).
+Proof.
+  induction l as [| x | x y r IH] using list_ind2; intros f Hf Hv k; cbn; try apply Hf.
+  destruct Hv as [[Hx Hy] Hr]. destruct (key_eq_dec k (to_key x)) as [->|]; [now rewrite Hx | now apply IH].
+Qed.
+Lemma pairs_all_map {A B} (f : A -> B) (P : B -> B -> Prop) : forall l, pairs_all (fun a b => P (f a) (f b)) l -> pairs_all P (map f l).
 Proof. induction l as [| x | x y r IH] using list_ind2; cbn; auto. intros [H1 H2]. auto. Qed.
-Lemma odd_all_pairs (P : term -> Prop) : forall l, (forall kv, In kv (pairs_of l) -> P (snd kv)) -> odd_all P l.
+Lemma pairs_all_pairs (P : term -> term -> Prop) : forall l, (forall kv, In kv (pairs_of l) -> P (fst kv) (snd kv)) -> pairs_all P l.
 Proof.
   induction l as [| x | x y r IH] using list_ind2; cbn; auto. intros H. split.
   - apply (H (x, y)). auto.
   - apply IH. intros kv Hin. apply H. auto.
 Qed.
+Lemma cdef_ok it e d : has_ty d e -> arr_ok it e (fun k => if key_sortb k it then d else junk).
+Proof. intros H k. destruct (key_sortb k it); auto. Qed.
 Lemma array_value_ok_snd it td : forall (rest : list term) trest,
   Forall2 (fun a t => tc a = Some t) rest trest -> array_value_ok it td trest true = true ->
   Forall (fun kv => tc (fst kv) = Some it /\ tc (snd kv) = Some td) (pairs_of rest).
@@ -835,28 +842,33 @@ Proof.
   - (* select *)
     rewrite eval_plain by reflexivity. destruct args as [|a [|i [|? ?]]]; try discriminate.
     inversion F2 as [|? ta ? ? Ha F2']; subst. inversion F2' as [|? ti ? ? Hi F2'']; subst. inversion F2''; subst.
-    cbn in Hr. destruct ta as [| | | | |i0 e| |]; try discriminate. destruct (ty_eqb i0 ti); [|discriminate]. inversion Hr; subst ty.
-    pose proof (Forall_inv IH I _ (Forall_inv Hargs) Ha Hwf) as Hva. cbn [map op_sem].
-    destruct (eval I a); try contradiction. apply Hva.
+    cbn in Hr. destruct ta as [| | | | |i0 e| |]; try discriminate.
+    destruct (ty_eqb i0 ti) eqn:Et; [|discriminate]. apply ty_eqb_eq in Et. subst ti. inversion Hr; subst ty.
+    pose proof (Forall_inv IH I _ (Forall_inv Hargs) Ha Hwf) as Hva.
+    pose proof (Forall_inv (Forall_inv_tail IH) I _ (Forall_inv (Forall_inv_tail Hargs)) Hi Hwf) as Hvi. cbn [map op_sem].
+    destruct (eval I a); try contradiction. cbn in Hva. specialize (Hva (to_key (eval I i))).
+    now rewrite (has_ty_key_sortb _ _ Hvi) in Hva.
   - (* store *)
     rewrite eval_plain by reflexivity. destruct args as [|a [|i [|v [|? ?]]]]; try discriminate.
     inversion F2 as [|? ta ? ? Ha F2']; subst. inversion F2' as [|? ti ? ? Hi F2'']; subst.
     inversion F2'' as [|? tv ? ? Hv F3]; subst. inversion F3; subst.
     cbn in Hr. destruct ta as [| | | | |i0 e| |]; try discriminate. destruct (ty_eqb i0 ti && ty_eqb e tv) eqn:E; [|discriminate]. inversion Hr; subst ty.
-    apply andb_true_iff in E. destruct E as [_ E]. apply ty_eqb_eq in E. subst tv.
+    apply andb_true_iff in E. destruct E as [E0 E]. apply ty_eqb_eq in E0, E. subst tv ti.
     pose proof (Forall_inv IH I _ (Forall_inv Hargs) Ha Hwf) as Hva.
+    pose proof (Forall_inv (Forall_inv_tail IH) I _ (Forall_inv (Forall_inv_tail Hargs)) Hi Hwf) as Hvi.
     pose proof (Forall_inv (Forall_inv_tail (Forall_inv_tail IH)) I _ (Forall_inv (Forall_inv_tail (Forall_inv_tail Hargs))) Hv Hwf) as Hvv.
-    cbn [map op_sem]. destruct (eval I a); try contradiction. cbn. intros k. destruct (key_eq_dec k (to_key (eval I i))); auto.
+    cbn [map op_sem]. destruct (eval I a); try contradiction. cbn. intros k.
+    destruct (key_eq_dec k (to_key (eval I i))) as [->|]; [now rewrite (has_ty_key_sortb _ _ Hvi) | apply Hva].
   - (* array value *)
     rewrite eval_plain by reflexivity. destruct args as [|d rest]; try discriminate.
     inversion F2 as [|? td ? trest Hd F2']; subst. cbn in Hr. destruct (array_value_ok it td trest true) eqn:Eav; [|discriminate].
     inversion Hr; subst ty. cbn [map op_sem]. cbn [has_ty].
     pose proof (Forall_inv IH I _ (Forall_inv Hargs) Hd Hwf) as Hvd.
-    apply arr_assign_has_ty; auto. apply odd_all_map. apply odd_all_pairs. intros kv Hkv.
-    pose proof (array_value_ok_snd it td rest trest F2' Eav) as Fp. rewrite Forall_forall in Fp. destruct (Fp kv Hkv) as [_ Tv].
-    destruct (pairs_of_In _ _ Hkv) as [_ Hin].
+    apply (arr_assign_has_ty it td); [now apply cdef_ok|]. apply pairs_all_map. apply pairs_all_pairs. intros kv Hkv.
+    pose proof (array_value_ok_snd it td rest trest F2' Eav) as Fp. rewrite Forall_forall in Fp. destruct (Fp kv Hkv) as [Tk Tv].
+    destruct (pairs_of_In _ _ Hkv) as [Hink Hin].
     pose proof (Forall_inv_tail IH) as IHr. pose proof (Forall_inv_tail Hargs) as Or. rewrite Forall_forall in IHr, Or.
-    apply IHr; auto.
+    split; [apply has_ty_key_sortb|]; apply IHr; auto.
   - (* div *) apply arith_rule_inv in Hr. destruct Hr as [Har Hall]. rewrite eval_plain by reflexivity.
     pose proof (HN ty Har Hall) as Hv. destruct args as [|a [|b [|? ?]]]; try discriminate. cbn [map op_sem].
     inversion Hv as [|? ? Ha Hv']; subst. inversion Hv' as [|? ? Hb ?]; subst.
@@ -1122,14 +1134,14 @@ End Rules.
 Fixpoint dval (t : ty) : value :=
   match t with
   | TBool => VBool false | TInt => VInt 0 | TReal => VReal 0 | TStr => VStr []
-  | TBV w => VBV w 0 | TArr _ e => VArr (fun _ => dval e) | TUser n _ => VU n 0
+  | TBV w => VBV w 0 | TArr i e => VArr (fun k => if key_sortb k i then dval e else junk) | TUser n _ => VU n 0
   | TFun _ _ => VBool false
   end.
 Lemma dval_has_ty t : inhb t = true -> has_ty (dval t) t.
 Proof.
   induction t; cbn; intros H; auto; try discriminate.
   - apply Z.ltb_lt in H. split; auto. split; [lia|]. apply Z.pow_pos_nonneg; lia.
-  - apply andb_true_iff in H. intros _. tauto.
+  - apply andb_true_iff in H. intros k. destruct (key_sortb k t1); [tauto | reflexivity].
 Qed.
 
 Lemma sbind_ifun : forall vs xs J, ifun (Sem.bind J vs xs) = ifun J.
